@@ -233,3 +233,324 @@ def int_inputs(d, rng, exhaustive_bits=8, extra=12):
         vals.add(rng.range(lo, hi))
         vals.add(rng.range(-130, 130))
     return sorted(v for v in vals if lo <= v <= hi)
+
+
+# ---------------------------------------------------------------- float guards
+
+def fbits(text, is64):
+    """bits of a (possibly negative) decimal text at the given width"""
+    negative = text.startswith("-")
+    l = lit(text.lstrip("-"))[1]
+    b = l["f64"] if is64 else l["f32"]
+    if negative:
+        b ^= 1 << (63 if is64 else 31)
+    return b
+
+
+def spell_float(ty, text, style, env, tag):
+    is64 = FLOAT_TYPES[ty]
+    negative = text.startswith("-")
+    body = text.lstrip("-")
+
+    def const(name, txt):
+        env.append((name, ty, fbits(txt, is64), "const %s: %s = %s;" % (name, ty, txt if "." in txt or "e" in txt else txt + ".0")))
+        return k(name)
+    if style == "lit":
+        e = lit(body)
+        return neg(e) if negative else e
+    if style == "const":
+        return const("K%s" % tag, text)
+    if style == "negconst":
+        flipped = body if negative else "-" + body
+        return neg(const("N%s" % tag, flipped))
+    if style == "parenconst":
+        return par(const("P%s" % tag, text))
+    if style == "parenlit":
+        e = lit(body if ("." in body or "e" in body) else body + ".0")
+        return par(neg(e) if negative else e)
+    raise ValueError(style)
+
+
+def assoc_float(ty, which, env):
+    is64 = FLOAT_TYPES[ty]
+    table = {
+        "MAX": 0x7FEFFFFFFFFFFFFF if is64 else 0x7F7FFFFF,
+        "MIN": 0xFFEFFFFFFFFFFFFF if is64 else 0xFF7FFFFF,
+        "INFINITY": 0x7FF0000000000000 if is64 else 0x7F800000,
+        "NEG_INFINITY": 0xFFF0000000000000 if is64 else 0xFF800000,
+        "MIN_POSITIVE": 0x0010000000000000 if is64 else 0x00800000,
+        "NAN": 0x7FF8000000000000 if is64 else 0x7FC00000,
+        "EPSILON": 0x3CB0000000000000 if is64 else 0x34000000,
+    }
+    name = "%s::%s" % (ty, which)
+    env.append((name, ty, table[which], None))
+    return k(name)
+
+
+FLOAT_SHAPES = [
+    [], ["L"], ["U"], ["F"], ["P"], ["L", "U"], ["U", "L"], ["F", "L", "U"], ["L", "U", "F"],
+    ["U", "F", "L"], ["L", "P"], ["P", "F"], ["F", "P", "U"], ["C"], ["L", "F"], ["F", "U"],
+]
+FLOAT_PAIRS = [("0.0", "10.0"), ("-5.5", "1e3"), ("-0.0", "0.0"), ("0.1", "0.3"), ("-100", "100"),
+               ("1.0", "1.0"), ("-3.0e38", "3.0e38"), ("64.0", "65.0"), ("1e-40", "1e-39"),
+               ("-1e3", "-2.5E-3"), ("5", "7.25"), ("1_000.5", "2_000.5")]
+FLOAT_STYLES = ["lit", "const", "negconst", "parenconst", "lit", "parenlit"]
+FLOAT_DERIVES = ["Debug", "Clone", "Copy", "PartialEq", "PartialOrd", "FromStr", "AsRef", "Into",
+                 "TryFrom", "Borrow", "Display", "Deref"]
+
+
+def gen_float_guards(rng, per_type=48, start=0):
+    decls = []
+    for ti, ty in enumerate(("f32", "f64")):
+        is64 = FLOAT_TYPES[ty]
+        for j in range(per_type):
+            shape = FLOAT_SHAPES[(j + ti) % len(FLOAT_SHAPES)]
+            lo_t, hi_t = FLOAT_PAIRS[(j * 5 + ti) % len(FLOAT_PAIRS)]
+            env = []
+            lk = LOWER[(j // 2) % 2]
+            uk = UPPER[(j // 3) % 2]
+            if "L" in shape and "U" in shape and fbits(lo_t, is64) in (fbits(hi_t, is64), fbits(hi_t, is64) ^ (1 << (63 if is64 else 31))):
+                lk, uk = "greater_or_equal", "less_or_equal"
+            sty_lo = FLOAT_STYLES[(j + 1) % len(FLOAT_STYLES)]
+            sty_hi = FLOAT_STYLES[(j * 5 + 2) % len(FLOAT_STYLES)]
+            special = j % 16
+            vitems = []
+            bounds = []
+            for s in shape:
+                if s == "L":
+                    if special == 11:
+                        e = assoc_float(ty, ["MIN", "NEG_INFINITY", "NAN"][(j // 16) % 3], env)
+                        bounds.append(env[-1][2])
+                    else:
+                        e = spell_float(ty, lo_t, sty_lo, env, "lo")
+                        bounds.append(fbits(lo_t, is64))
+                    vitems.append([tid(lk), EQ, tx(e)])
+                elif s == "U":
+                    if special == 13:
+                        e = assoc_float(ty, ["MAX", "INFINITY", "MIN_POSITIVE"][(j // 16) % 3], env)
+                        bounds.append(env[-1][2])
+                    else:
+                        e = spell_float(ty, hi_t, sty_hi, env, "hi")
+                        bounds.append(fbits(hi_t, is64))
+                    vitems.append([tid(uk), EQ, tx(e)])
+                elif s == "F":
+                    vitems.append([tid("finite")])
+                elif s == "P":
+                    vitems.append([tid("predicate"), EQ, tfn(j % 2, PRED_FORMS[j % 3], "p")])
+                elif s == "C":
+                    vitems.append([tid("with"), EQ, tfn(0, "p", "c")])
+                    vitems.append([tid("error"), EQ, tpath("CErr")])
+            blocks = []
+            san = j % 4
+            if san < 3 and (j % 3 != 1 or not shape):
+                blocks.append(block("sanitize", [[tid("with"), EQ, tfn(san, FORMS[(j + ti) % 5], "s")]]))
+            if vitems:
+                blocks.append(block("validate", vitems, trailing=(j % 5 == 0)))
+            traits = list(FLOAT_DERIVES)
+            if "F" in shape:
+                traits += ["Eq", "Ord"]
+            if not vitems:
+                traits[traits.index("TryFrom")] = "From"
+            if j % 3 == 0:
+                dt = [lo_t, hi_t, "7.0", "101.5", "-1.0"][(j // 3) % 5]
+                e = lit(dt.lstrip("-") if ("." in dt or "e" in dt.lower()) else dt.lstrip("-") + ".0")
+                blocks.append([tid("default"), EQ, tx(neg(e) if dt.startswith("-") else e)])
+                traits.append("Default")
+            if j % 6 == 5 and "C" not in shape:
+                blocks.append([tid("const_fn")])
+                blocks = [[(t[0], t[1], "p", t[3]) if t[0] == "fn" else
+                           (("g", [(u[0], u[1], "p", u[3]) if u[0] == "fn" else u for u in t[1]]) if t[0] == "g" else t)
+                           for t in b] for b in blocks]
+            blocks.append(derive_block(traits))
+            if j % 2:
+                blocks = blocks[-1:] + blocks[:-1]
+            d = Decl("f%d" % (start + len(decls)), ty, attr(blocks, trailing=(j % 4 == 3)), env=env,
+                     tags={"guard", "float"})
+            d.bounds = bounds
+            decls.append(d)
+    return decls
+
+
+def float_specials(is64):
+    if is64:
+        sp = [0x0, 0x8000000000000000, 0x1, 0x8000000000000001, 0x000FFFFFFFFFFFFF, 0x0010000000000000,
+              0x8010000000000000, 0x3FF0000000000000, 0xBFF0000000000000, 0x7FEFFFFFFFFFFFFF,
+              0xFFEFFFFFFFFFFFFF, 0x7FF0000000000000, 0xFFF0000000000000, 0x7FF8000000000000,
+              0xFFF8000000000000, 0x7FF0000000000001, 0x7FFFFFFFFFFFFFFF, 0xFFF0000000000001,
+              0x401C000000000000, 0x4059000000000000, 0x4059000000000001, 0xBFE0000000000000,
+              0x3FE0000000000000, 0x4050000000000000]
+    else:
+        sp = [0x0, 0x80000000, 0x1, 0x80000001, 0x007FFFFF, 0x00800000, 0x80800000, 0x3F800000,
+              0xBF800000, 0x7F7FFFFF, 0xFF7FFFFF, 0x7F800000, 0xFF800000, 0x7FC00000, 0xFFC00000,
+              0x7F800001, 0x7FFFFFFF, 0xFF800001, 0x40E00000, 0x42C80000, 0x42C80001, 0xBF000000,
+              0x3F000000, 0x42800000]
+    return sp
+
+
+def float_inputs(d, rng, extra=16):
+    is64 = FLOAT_TYPES[d.inner]
+    width = 64 if is64 else 32
+    vals = set(float_specials(is64))
+    expmask = ((1 << (11 if is64 else 8)) - 1) << (52 if is64 else 23)
+    for b in getattr(d, "bounds", []):
+        vals.add(b)
+        if (b & expmask) != expmask:
+            u, dn = f_next_up(b, is64), f_next_down(b, is64)
+            vals.update([u, dn, f_next_up(u, is64), f_next_down(dn, is64), b ^ (1 << (width - 1))])
+    for _ in range(extra):
+        vals.add(rng.next() & ((1 << width) - 1))
+    return sorted(vals)
+
+
+# ---------------------------------------------------------------- string guards
+
+STR_SAN_SETS = [
+    [], ["trim"], ["lowercase"], ["uppercase"], ["trim", "lowercase"], ["lowercase", "trim"],
+    ["trim", "uppercase"], ["uppercase", "trim"], ["W0"], ["trim", "W1"], ["W2", "trim"],
+    ["trim", "lowercase", "W0"], ["W0", "trim", "uppercase"], ["lowercase", "W2"],
+]
+STR_VAL_SETS = [
+    [], ["not_empty"], ["min"], ["max"], ["min", "max"], ["max", "min"], ["not_empty", "max"],
+    ["min", "not_empty"], ["P0"], ["P1", "max"], ["R0"], ["not_empty", "min", "R2"], ["R1p", "max"],
+    ["max", "not_empty", "P0"], ["C"], ["R0p", "min"], ["not_empty", "min", "max", "P1", "R1"],
+    ["R2", "P0", "max", "min", "not_empty"],
+]
+REGEX_LITS = ["^[a-z]+$", "@", "^.{2,4}$"]
+STR_DERIVES = ["Debug", "Clone", "PartialEq", "Eq", "PartialOrd", "Ord", "Hash", "FromStr", "AsRef",
+               "Into", "TryFrom", "Borrow", "Display", "Deref"]
+USIZE_STYLES = ["lit", "const", "paren", "arith", "call", "parenconst", "shift"]
+
+
+def gen_str_guards(rng, n=160, start=0):
+    decls = []
+    for j in range(n):
+        sans = STR_SAN_SETS[j % len(STR_SAN_SETS)]
+        vals = STR_VAL_SETS[(j * 5 + j // len(STR_SAN_SETS)) % len(STR_VAL_SETS)]
+        env = []
+        mn, mx = [(1, 3), (2, 2), (0, 4), (3, 5), (2, 6)][j % 5]
+        sitems = []
+        for s in sans:
+            if s.startswith("W"):
+                sitems.append([tid("with"), EQ, tfn(int(s[1]), FORMS[j % 5], "s")])
+            else:
+                sitems.append([tid(s)])
+        vitems = []
+        for v in vals:
+            if v == "min":
+                vitems.append([tid("len_char_min"), EQ, tx(spell_int("usize", mn, USIZE_STYLES[j % len(USIZE_STYLES)], env, "mn"))])
+            elif v == "max":
+                vitems.append([tid("len_char_max"), EQ, tx(spell_int("usize", mx, USIZE_STYLES[(j * 3 + 1) % len(USIZE_STYLES)], env, "mx"))])
+            elif v == "not_empty":
+                vitems.append([tid("not_empty")])
+            elif v[0] == "P":
+                vitems.append([tid("predicate"), EQ, tfn(int(v[1]), PRED_FORMS[j % 3], "p")])
+            elif v[0] == "R":
+                if v.endswith("p"):
+                    vitems.append([tid("regex"), EQ, tpath("RE%s" % v[1])])
+                else:
+                    vitems.append([tid("regex"), EQ, tstr(REGEX_LITS[int(v[1])])])
+            elif v == "C":
+                vitems.append([tid("with"), EQ, tfn(0, "p", "c")])
+                vitems.append([tid("error"), EQ, tpath("CErr")])
+        blocks = []
+        if sitems:
+            blocks.append(block("sanitize", sitems, trailing=(j % 7 == 0)))
+        if vitems:
+            blocks.append(block("validate", vitems))
+        traits = list(STR_DERIVES)
+        if not vitems:
+            traits[traits.index("TryFrom")] = "From"
+        if j % 3 == 0:
+            dv = ["ab", "", " Ab@ ", "abcdefgh", "x"][(j // 3) % 5]
+            blocks.append([tid("default"), EQ, tx(estr(dv))])
+            traits.append("Default")
+        blocks.append(derive_block(traits))
+        if j % 2:
+            blocks = blocks[-1:] + blocks[:-1]
+        d = Decl("s%d" % (start + len(decls)), "String", attr(blocks, trailing=(j % 4 == 3)), env=env,
+                 tags={"guard", "str"})
+        decls.append(d)
+    return decls
+
+
+ASCII_ALPHABET = ["a", "B", " ", "@", "x", "!", "\n", "z", "7"]
+UNICODE_ALPHABET = ["a", "B", " ", "@", "x", "\n", "\u00a0", "\u2003", "\u0085", "\u00df", "\u0130",
+                    "\u03a3", "\u03c3", "\u03c2", "\u01c5", "\ufb01", "\u0307", "\u0345", "\u1f88",
+                    "\u0131", "\u212a", "\u1e9e", "\u0149", "\u200b"]
+
+
+def all_strings(alphabet, maxlen):
+    out = [""]
+    frontier = [""]
+    for _ in range(maxlen):
+        frontier = [s + c for s in frontier for c in alphabet]
+        out += frontier
+    return out
+
+
+def str_inputs(d, rng, alphabet, maxlen=3, sample=None, extra=()):
+    base = all_strings(alphabet, maxlen)
+    if sample is not None and len(base) > sample:
+        keep = set(all_strings(alphabet, 1))
+        picked = [base[rng.below(len(base))] for _ in range(sample)]
+        base = sorted(keep.union(picked))
+    out = list(base) + list(extra)
+    for _ in range(6):
+        ln = rng.range(4, 9)
+        out.append("".join(rng.choice(alphabet) for _ in range(ln)))
+    return out
+
+
+# ---------------------------------------------------------------- "other type" guards
+
+ANY_DERIVES = ["Debug", "Clone", "PartialEq", "Eq", "PartialOrd", "Ord", "Hash", "AsRef", "Into",
+               "TryFrom", "Borrow", "Deref", "IntoIterator"]
+ANY_SHAPES = [([], []), (["W0"], []), ([], ["P0"]), (["W1"], ["P1"]), (["W2"], ["P0"]), ([], ["C"]),
+              (["W0"], ["C"]), (["W1"], [])]
+
+
+def gen_any_guards(rng, n=32, start=0):
+    decls = []
+    for j in range(n):
+        sans, vals = ANY_SHAPES[j % len(ANY_SHAPES)]
+        generic = (j % 4 == 3)
+        blocks = []
+        if sans:
+            blocks.append(block("sanitize", [[tid("with"), EQ, tfn(int(sans[0][1]), FORMS[j % 5] if not generic else ["p", "c00", "c01"][j % 3], "s")]]))
+        vitems = []
+        for v in vals:
+            if v[0] == "P":
+                fid = int(v[1]) if not generic else 0
+                vitems.append([tid("predicate"), EQ, tfn(fid, PRED_FORMS[j % 3] if not generic else ["p", "c00"][j % 2], "p")])
+            else:
+                vitems.append([tid("with"), EQ, tfn(0, "p", "c")])
+                vitems.append([tid("error"), EQ, tpath("CErr")])
+        if generic and vals and vals[0] == "C":
+            vitems = [[tid("predicate"), EQ, tfn(0, "p", "p")]]
+        if vitems:
+            blocks.append(block("validate", vitems))
+        traits = list(ANY_DERIVES)
+        if not vitems:
+            traits[traits.index("TryFrom")] = "From"
+        if j % 3 == 0:
+            dv = [[1, 2], [], [3, -1, 2, 5, 4], [0]][(j // 3) % 4]
+            blocks.append([tid("default"), EQ, tx(elist(dv))])
+            traits.append("Default")
+        blocks.append(derive_block(traits))
+        if generic:
+            d = Decl("a%d" % (start + len(decls)), "Vec<T>", attr(blocks), tags={"guard", "any", "generic"},
+                     name="W", generics=[("T", ["Ord", "Clone"] if j % 8 == 3 else [])])
+            d.inst = "<i32>"
+            d.inner_concrete = "Vec<i32>"
+        else:
+            d = Decl("a%d" % (start + len(decls)), "Vec<i32>", attr(blocks), tags={"guard", "any"})
+        decls.append(d)
+    return decls
+
+
+def any_inputs(d, rng):
+    vals = [[], [0], [1], [-1], [1, 2], [2, 1], [3, -1, 2], [1, 2, 3], [1, 2, 3, 4], [5, 4, 3, 2, 1],
+            [0, 0, 0, 0], [-5, -6], [2147483647, -2147483647], [7, 7, 7]]
+    for _ in range(4):
+        vals.append([rng.range(-9, 9) for _ in range(rng.range(0, 6))])
+    return vals
